@@ -14,11 +14,38 @@
      - when an answer is queued (OQueue cid a, o_req a = false), it is attributed to the origin bound to
        (o_hbh a, o_e2e a) in the table, the end-to-end id is appended to that origin's history and the
        binding is dropped; an answer whose pair is not pending is attributed to nobody.
+     - when connections are closed (remove_peer_connection), the requests they had delivered to an application
+       and that are still unanswered will never be answered: the node pops the host's entry of the per-host
+       table n_peer_waiting and forgets these pairs in the origin table too.  The ghost does the same: the
+       pairs listed under the hosts that LEFT n_peer_waiting (`gone_between n n'` = `lost`, read off the
+       per-host table before and after) are dropped from the pending table (ghost_drop).  A host leaves
+       the table only when one of its connections is removed (`keeps`, keeps_spec).  Without this drop a
+       stale binding could attribute a later answer that reuses the pair to an origin for which the node
+       records nothing (C17_history_example_close).
+     - a request that will never be answered is FORGOTTEN (Node.drop_origin; ghost_unbind removes every binding
+       of its pair, like the filter of record_answer):
+         * an unexpected CER: a capabilities-exchange request that reaches _receive_message on a connection whose
+           state is not CONNECTED (`cer_unexpected`, read off the node state at that frame) is either answered with
+           an error (5005 / 5012) or ignored; after the outputs of its frame (the error answer, if any, is
+           attributed first) its pair is unbound (C17_history_example_cer_ignored);
+         * an application's answer that is not routable (fst (route_answer n m) = None, trace entry
+           [ONotRoutable]) although a host was waiting for it in the per-host table (`waits`): the host's
+           connection is gone or no longer ready; the pair is unbound (C17_history_example_answer_not_routable).
    `answered n0 evs o` is the list of end-to-end ids attributed to o, oldest first.  The ghost never looks
    at n_origin_waiting or n_sent_answers: that its table coincides with n_origin_waiting is part of the
-   invariant (C17_history_pending).  Of the node's state it reads only which frames pass the gate
+   invariant (C17_history_pending).  Of the node's state it reads which frames pass the gate
    (`received`), frame by frame (a network read may hold several frames, and the gate of the second
-   depends on what the first did): ghost_frames.  For every other event it reads the trace entry.
+   depends on what the first did): ghost_frames; there also whether the frame's connection is awaiting a CER
+   (c_state); the per-host table n_peer_waiting at the points where connections may have been closed in
+   between; and, for an application's answer, whether Node.route_answer finds a connection for it.  Order within one event:
+     network read    drop (the I/O thread finishes its iteration: n -> read_state), then per frame
+                     [bind the request; drop (CER election, CEA/DPA handling close connections before anything
+                     is queued); see the outputs; unbind an unexpected CER], then drop (flush + I/O iteration
+                     afterwards);
+     answer of an application   routable: see the outputs, then drop relative to the state in which
+                     Node.route_answer has taken the pair out of the per-host table (the I/O thread runs after the
+                     answer is queued); not routable: unbind the pair if a host was waiting for it, else nothing;
+     any other event see the outputs (the trace entry; no answer among them), then drop.
    recv_trace_answers / answered_from_trace tie the frame-by-frame outputs back to the trace.
 
    Results.
@@ -73,23 +100,163 @@ Proof.
 Qed.
 
 (* ====================================================================== *)
-(* 1. what every function leaves alone                                     *)
+(* 1. what every function leaves alone, and what closing a connection drops *)
 (* ====================================================================== *)
-Definition keeps (n n' : node) : Prop :=
-  n_origin_waiting n' = n_origin_waiting n /\ n_sent_answers n' = n_sent_answers n /\ n_cfg n' = n_cfg n.
+(* the per-host table of delivered, unanswered requests; what a closing connection takes with it *)
+(* `keeps n n'`: between n and n' some connections were removed, one after the other; each removal takes the
+   entry of the connection's host out of the per-host table and the pairs listed there out of the origin
+   table; windows and configuration stay (same4 / drop1).  keeps_spec: the net effect on the origin table is
+   ow_drop (lost pw pw'), computed from the per-host table before and after alone. *)
+Definition pw_t : Type := list (string * list (Z * Z)).
+Definition look (pw : pw_t) (host : string) : list (Z * Z) :=
+  match List.find (fun e => String.eqb (fst e) host) pw with Some e => snd e | None => [] end.
+Definition ow_drop (gone : list (Z * Z)) (ow : list (Z * Z * string)) : list (Z * Z * string) :=
+  List.filter (fun x => let '(h, e, _) := x in negb (mem_zz (h, e) gone)) ow.
+Definition hosts (pw : pw_t) : list string := List.map fst pw.
+Definition mem_host (h : string) (l : list string) : bool := List.existsb (String.eqb h) l.
+Definition lost (pw pw' : pw_t) : list (Z * Z) :=
+  List.flat_map (look pw) (List.filter (fun h => negb (mem_host h (hosts pw'))) (hosts pw)).
+
+Definition same4 (n n' : node) : Prop :=
+  n_peer_waiting n' = n_peer_waiting n /\ n_origin_waiting n' = n_origin_waiting n
+  /\ n_sent_answers n' = n_sent_answers n /\ n_cfg n' = n_cfg n.
+Definition drop1 (host : string) (n n' : node) : Prop :=
+  n_peer_waiting n' = List.filter (fun e => negb (String.eqb (fst e) host)) (n_peer_waiting n)
+  /\ n_origin_waiting n' = ow_drop (look (n_peer_waiting n) host) (n_origin_waiting n)
+  /\ n_sent_answers n' = n_sent_answers n /\ n_cfg n' = n_cfg n.
+Inductive keeps : node -> node -> Prop :=
+| k_same n n' : same4 n n' -> keeps n n'
+| k_drop host n n1 n' : drop1 host n n1 -> keeps n1 n' -> keeps n n'.
 
 Lemma keeps_refl n : keeps n n.
-Proof. repeat split. Qed.
+Proof. apply k_same. repeat split. Qed.
+Lemma same4_keeps a b c : same4 a b -> keeps b c -> keeps a c.
+Proof.
+  intros (A1 & A2 & A3 & A4) K. revert a A1 A2 A3 A4. induction K as [b c (B1 & B2 & B3 & B4)|h b b1 c (D1 & D2 & D3 & D4) K IH]; intros a A1 A2 A3 A4.
+  - apply k_same. repeat split; congruence.
+  - apply (k_drop h a b1 c); [|exact K]. repeat split; congruence.
+Qed.
 Lemma keeps_trans a b c : keeps a b -> keeps b c -> keeps a c.
-Proof. intros (A1 & A2 & A3) (B1 & B2 & B3). repeat split; congruence. Qed.
-
-Ltac kp := solve [repeat split; reflexivity].
+Proof.
+  intros K1 K2. induction K1 as [a b S|h a a1 b D K IH]; [eapply same4_keeps; eassumption|].
+  eapply k_drop; [exact D|]. apply IH. exact K2.
+Qed.
+Ltac kp := solve [apply k_same; repeat split; reflexivity].
 
 Lemma remove_conn_k n cid r : keeps n (remove_conn n cid r).
 Proof.
   unfold remove_conn. destruct (get_conn n cid) as [c|]; [|apply keeps_refl].
-  destruct (find_conn_peer n c) as [p|]; [|kp].
-  destruct (p_conn p) as [k|]; [|kp]. destruct (Nat.eqb k cid); kp.
+  eapply (k_drop (c_host c)); [|apply keeps_refl].
+  destruct (find_conn_peer n c) as [p|]; [|repeat split; reflexivity].
+  destruct (p_conn p) as [k|]; [|repeat split; reflexivity]. destruct (Nat.eqb k cid); repeat split; reflexivity.
+Qed.
+
+Lemma mem_zz_app q a b : mem_zz q (a ++ b) = mem_zz q a || mem_zz q b.
+Proof. apply List.existsb_app. Qed.
+Lemma mem_zz_flat {A} q (f : A -> list (Z * Z)) l :
+  mem_zz q (List.flat_map f l) = List.existsb (fun k => mem_zz q (f k)) l.
+Proof.
+  induction l as [|k l IH]; [reflexivity|]. cbn [List.flat_map List.existsb]. rewrite mem_zz_app, IH. reflexivity.
+Qed.
+Lemma ow_drop_ext a b ow : (forall q, mem_zz q a = mem_zz q b) -> ow_drop a ow = ow_drop b ow.
+Proof. intros H. apply List.filter_ext. intros [[h e] o]. rewrite H. reflexivity. Qed.
+Lemma ow_drop_nil ow : ow_drop [] ow = ow.
+Proof. unfold ow_drop. induction ow as [|[[h e] o] r IH]; [reflexivity|]. cbn. f_equal. exact IH. Qed.
+Lemma ow_drop_drop a b ow : ow_drop b (ow_drop a ow) = ow_drop (a ++ b) ow.
+Proof.
+  unfold ow_drop. induction ow as [|[[h e] o] r IH]; [reflexivity|]. cbn [List.filter]. rewrite mem_zz_app.
+  destruct (mem_zz (h, e) a); cbn [negb orb]; [exact IH|]. cbn [List.filter].
+  destruct (mem_zz (h, e) b); cbn [negb]; [exact IH|]. f_equal. exact IH.
+Qed.
+
+Lemma mem_host_in h l : mem_host h l = true <-> List.In h l.
+Proof.
+  unfold mem_host. rewrite List.existsb_exists. split.
+  - intros (x & Hin & E). apply String.eqb_eq in E. subst x. exact Hin.
+  - intros Hin. exists h. split; [exact Hin|apply String.eqb_refl].
+Qed.
+
+Lemma mem_lost q a b :
+  mem_zz q (lost a b) = true <->
+  exists k, List.In k (hosts a) /\ mem_host k (hosts b) = false /\ mem_zz q (look a k) = true.
+Proof.
+  unfold lost. rewrite mem_zz_flat, List.existsb_exists. split.
+  - intros (k & Hin & Hq). apply List.filter_In in Hin. destruct Hin as [Hin Hb].
+    exists k. repeat split; [exact Hin| |exact Hq]. destruct (mem_host k (hosts b)); [discriminate Hb|reflexivity].
+  - intros (k & Hin & Hb & Hq). exists k. split; [|exact Hq]. apply List.filter_In. split; [exact Hin|].
+    rewrite Hb. reflexivity.
+Qed.
+
+Lemma look_filter_neq pw h k :
+  k <> h -> look (List.filter (fun e => negb (String.eqb (fst e) h)) pw) k = look pw k.
+Proof.
+  intros Hn. unfold look. induction pw as [|e r IH]; [reflexivity|]. cbn [List.filter List.find].
+  destruct (String.eqb (fst e) h) eqn:E1; cbn [negb].
+  - apply String.eqb_eq in E1. destruct (String.eqb (fst e) k) eqn:E2; [|exact IH].
+    apply String.eqb_eq in E2. exfalso. apply Hn. congruence.
+  - cbn [List.find]. destruct (String.eqb (fst e) k); [reflexivity|exact IH].
+Qed.
+
+Lemma look_in q pw h : mem_zz q (look pw h) = true -> List.In h (hosts pw).
+Proof.
+  unfold look. destruct (List.find _ pw) as [e|] eqn:F; [|discriminate].
+  intros _. apply List.find_some in F. destruct F as [Hin E]. apply String.eqb_eq in E. subst h.
+  unfold hosts. apply List.in_map. exact Hin.
+Qed.
+
+Lemma hosts_filter_in pw h k :
+  List.In k (hosts (List.filter (fun e => negb (String.eqb (fst e) h)) pw)) <-> List.In k (hosts pw) /\ k <> h.
+Proof.
+  unfold hosts. rewrite !List.in_map_iff. split.
+  - intros (e & E & Hin). apply List.filter_In in Hin. destruct Hin as [Hin Hb]. subst k. split; [exists e; split; [reflexivity|exact Hin]|].
+    intros E. rewrite E, String.eqb_refl in Hb. discriminate Hb.
+  - intros [(e & E & Hin) Hn]. exists e. split; [exact E|]. apply List.filter_In. split; [exact Hin|].
+    subst k. destruct (String.eqb (fst e) h) eqn:E2; [apply String.eqb_eq in E2; contradiction|reflexivity].
+Qed.
+
+Lemma lost_same pw : lost pw pw = [].
+Proof.
+  unfold lost. replace (List.filter _ (hosts pw)) with (@nil string); [reflexivity|].
+  symmetry. assert (H : forall l, (forall k, List.In k l -> List.In k (hosts pw)) ->
+     List.filter (fun h => negb (mem_host h (hosts pw))) l = []).
+  { induction l as [|k l IH]; intros Hl; [reflexivity|]. cbn [List.filter].
+    destruct (mem_host k (hosts pw)) eqn:E; cbn [negb]; [apply IH; intros x Hx; apply Hl; right; exact Hx|].
+    exfalso. assert (mem_host k (hosts pw) = true) by (apply mem_host_in, Hl; left; reflexivity). congruence. }
+  apply H. auto.
+Qed.
+
+Lemma lost_step pw pw' h q :
+  (forall k, List.In k (hosts pw') -> List.In k (hosts (List.filter (fun e => negb (String.eqb (fst e) h)) pw))) ->
+  mem_zz q (lost pw pw')
+  = mem_zz q (look pw h ++ lost (List.filter (fun e => negb (String.eqb (fst e) h)) pw) pw').
+Proof.
+  intros Hsub. set (pw1 := List.filter _ pw) in *.
+  apply Bool.eq_iff_eq_true. rewrite mem_zz_app, Bool.orb_true_iff, !mem_lost. split.
+  - intros (k & Hin & Hb & Hq). destruct (string_dec k h) as [E|E].
+    + left. subst k. exact Hq.
+    + right. exists k. split; [apply hosts_filter_in; split; assumption|]. split; [exact Hb|].
+      unfold pw1. rewrite look_filter_neq by exact E. exact Hq.
+  - intros [Hq|(k & Hin & Hb & Hq)].
+    + exists h. split; [eapply look_in; exact Hq|]. split; [|exact Hq].
+      destruct (mem_host h (hosts pw')) eqn:E; [|reflexivity]. exfalso.
+      apply mem_host_in, Hsub, hosts_filter_in in E. destruct E as [_ E]. apply E. reflexivity.
+    + apply hosts_filter_in in Hin. destruct Hin as [Hin Hn]. exists k. split; [exact Hin|]. split; [exact Hb|].
+      unfold pw1 in Hq. rewrite look_filter_neq in Hq by exact Hn. exact Hq.
+Qed.
+
+Lemma keeps_spec n n' : keeps n n' ->
+  n_sent_answers n' = n_sent_answers n /\ n_cfg n' = n_cfg n
+  /\ (forall k, List.In k (hosts (n_peer_waiting n')) -> List.In k (hosts (n_peer_waiting n)))
+  /\ n_origin_waiting n' = ow_drop (lost (n_peer_waiting n) (n_peer_waiting n')) (n_origin_waiting n).
+Proof.
+  induction 1 as [n n' (S1 & S2 & S3 & S4)|h n n1 n' (D1 & D2 & D3 & D4) K (I1 & I2 & I3 & I4)].
+  - rewrite S1, lost_same, ow_drop_nil. repeat split; auto.
+  - assert (Hsub : forall k, List.In k (hosts (n_peer_waiting n')) ->
+                     List.In k (hosts (List.filter (fun e => negb (String.eqb (fst e) h)) (n_peer_waiting n)))).
+    { intros k Hk. rewrite <- D1. apply I3. exact Hk. }
+    split; [congruence|]. split; [congruence|]. split.
+    + intros k Hk. apply Hsub, hosts_filter_in in Hk. apply Hk.
+    + rewrite I4, D2, ow_drop_drop, D1. apply ow_drop_ext. intros q. symmetry. apply lost_step. exact Hsub.
 Qed.
 
 Lemma close_conn_k n cid r : keeps n (fst (close_conn n cid r)).
@@ -287,8 +454,8 @@ Proof.
     apply IH. eapply keeps_trans; eassumption.
 Qed.
 
-(* every event other than a network read and an application's answer leaves the table of pending
-   requests, the windows and the configuration alone *)
+(* every event other than a network read and an application's answer leaves the windows and the
+   configuration alone and changes the table of pending requests only by closing connections *)
 Lemma step_k n ds e :
   (forall cid ms, e <> ERecv cid ms) -> (forall i m, e <> EAppAnswer i m) -> keeps n (fst (step n ds e)).
 Proof.
@@ -353,19 +520,66 @@ Proof.
     apply (k_then_settle (n1, o1)). exact H1.
 Qed.
 
-Lemma flag_ready_k n cid : keeps n (flag_ready n cid).
-Proof. kp. Qed.
-Lemma assign_peer_conn_k n cid : keeps n (assign_peer_conn n cid).
+Lemma flag_ready_k n cid : same4 n (flag_ready n cid).
+Proof. repeat split. Qed.
+Lemma assign_peer_conn_k n cid : same4 n (assign_peer_conn n cid).
 Proof.
-  unfold assign_peer_conn. destruct (get_conn n cid) as [c|]; [|apply keeps_refl].
-  destruct (String.eqb (c_host c) ""); [apply keeps_refl|].
-  destruct (get_peer n (c_host c)) as [p|]; [|apply keeps_refl]. cbv zeta.
-  destruct (mem_nat cid (n_half_ready n)); kp.
+  unfold assign_peer_conn. destruct (get_conn n cid) as [c|]; [|repeat split].
+  destruct (String.eqb (c_host c) ""); [repeat split|].
+  destruct (get_peer n (c_host c)) as [p|]; [|repeat split]. cbv zeta.
+  destruct (mem_nat cid (n_half_ready n)); repeat split.
 Qed.
-Lemma route_answer_k n a : keeps n (snd (route_answer n a)).
+(* ---- functions that close nothing: the table of pending requests, the windows and the configuration
+   stay, and no host leaves the per-host table (its lists may change) ---- *)
+Definition hsub (pw pw' : pw_t) : Prop := forall k, List.In k (hosts pw) -> List.In k (hosts pw').
+Definition kept (n n' : node) : Prop :=
+  n_origin_waiting n' = n_origin_waiting n /\ n_sent_answers n' = n_sent_answers n /\ n_cfg n' = n_cfg n
+  /\ hsub (n_peer_waiting n) (n_peer_waiting n').
+
+Lemma kept_refl n : kept n n.
+Proof. repeat split. intros k H. exact H. Qed.
+Lemma kept_trans a b c : kept a b -> kept b c -> kept a c.
+Proof. intros (A1 & A2 & A3 & A4) (B1 & B2 & B3 & B4). repeat split; try congruence. intros k H. apply B4, A4, H. Qed.
+Lemma same4_kept n n' : same4 n n' -> kept n n'.
+Proof. intros (S1 & S2 & S3 & S4). repeat split; try assumption. rewrite S1. intros k H. exact H. Qed.
+
+Ltac kp ::= solve [apply k_same; repeat split; reflexivity | apply same4_kept; repeat split; reflexivity].
+
+Lemma hosts_pw_remove pw h p : hosts (pw_remove pw h p) = hosts pw.
 Proof.
-  unfold route_answer. destruct (List.find _ (n_peer_waiting n)) as [[host l]|]; [|apply keeps_refl]. cbv zeta.
-  destruct (List.find _ _) as [c|]; [|kp]. destruct (is_ready_state (c_state c)); kp.
+  unfold hosts, pw_remove. rewrite List.map_map. apply List.map_ext. intros e. destruct (String.eqb (fst e) h); reflexivity.
+Qed.
+Lemma hsub_pw_add pw h p : hsub pw (pw_add pw h p).
+Proof.
+  unfold pw_add. destruct (List.existsb _ pw).
+  - match goal with |- hsub pw ?x => assert (E : hosts x = hosts pw); [|intros k H; rewrite E; exact H] end.
+    unfold hosts. rewrite List.map_map. apply List.map_ext. intros e. destruct (String.eqb (fst e) h); reflexivity.
+  - intros k H. unfold hosts. rewrite List.map_app. apply List.in_or_app. left. exact H.
+Qed.
+Lemma kept_pw_remove n n' h p :
+  n_peer_waiting n' = pw_remove (n_peer_waiting n) h p -> n_origin_waiting n' = n_origin_waiting n ->
+  n_sent_answers n' = n_sent_answers n -> n_cfg n' = n_cfg n -> kept n n'.
+Proof. intros E1 E2 E3 E4. repeat split; try assumption. rewrite E1. intros k H. rewrite hosts_pw_remove. exact H. Qed.
+
+(* a host is waiting for the answer to the pair p (Node.route_answer finds it in the per-host table) *)
+Definition waits (n : node) (p : Z * Z) : bool :=
+  match List.find (fun e => mem_zz p (snd e)) (n_peer_waiting n) with Some _ => true | None => false end.
+
+(* Node.route_answer: a routable answer only leaves its host's list; an answer that is not routable although a host
+   was waiting for it takes its pair out of the origin table (drop_origin) *)
+Lemma route_answer_k n a :
+  match fst (route_answer n a) with
+  | Some _ => kept n (snd (route_answer n a))
+  | None => n_origin_waiting (snd (route_answer n a))
+            = (if waits n (o_hbh a, o_e2e a) then ow_remove (n_origin_waiting n) (o_hbh a) (o_e2e a)
+               else n_origin_waiting n)
+            /\ n_sent_answers (snd (route_answer n a)) = n_sent_answers n
+            /\ n_cfg (snd (route_answer n a)) = n_cfg n
+  end.
+Proof.
+  unfold route_answer, waits. destruct (List.find _ (n_peer_waiting n)) as [[host l]|]; [|repeat split]. cbv zeta.
+  destruct (List.find _ _) as [c|]; [|repeat split].
+  destruct (is_ready_state (c_state c)); [eapply kept_pw_remove; reflexivity|repeat split].
 Qed.
 
 (* ====================================================================== *)
@@ -391,6 +605,11 @@ Definition ghost_answer (g : ghost) (a : omsg) : ghost :=
   | None => g
   end.
 
+(* connections were closed: the pairs that waited under the hosts which left the per-host table are dropped *)
+Definition ghost_drop (g : ghost) (gone : list (Z * Z)) : ghost := (ow_drop gone (fst g), snd g).
+(* what the closing connections took with them between two states *)
+Definition gone_between (n n' : node) : list (Z * Z) := lost (n_peer_waiting n) (n_peer_waiting n').
+
 Definition ghost_out (g : ghost) (o : output) : ghost :=
   match o with
   | OQueue _ a => if o_req a then g else ghost_answer g a
@@ -402,14 +621,29 @@ Definition ghost_outs (g : ghost) (outs : list output) : ghost := List.fold_left
 Definition received (n : node) (cid : nat) (m : msg) : bool :=
   match get_conn n cid with Some c => gate_passes c m | None => false end.
 
+(* a request that will never be answered is forgotten: every binding of its pair goes *)
+Definition ghost_unbind (g : ghost) (hbh e2e : Z) : ghost := (ow_remove (fst g) hbh e2e, snd g).
+
+(* a capabilities-exchange request reaches Node._receive_message on a connection that is not awaiting one
+   (state other than CONNECTED): it is either answered with an error or ignored; it does not stay pending *)
+Definition cer_unexpected (n : node) (cid : nat) (m : msg) : bool :=
+  match get_conn n cid with
+  | Some c => gate_passes c m && m_req m && cmd_eqb (m_cmd m) CE && negb (cstate_eqb (c_state c) SConnected)
+  | None => false
+  end.
+
 (* the frames of one read, in order: each is received (or dropped by the gate), then the outputs the
-   node produces for it are seen; n is the state in which the reader thread sees the frame *)
+   node produces for it are seen; n is the state in which the reader thread sees the frame.  An unexpected
+   CER is unbound after its outputs (an error answer to it is attributed first) *)
 Fixpoint ghost_frames (n : node) (g : ghost) (cid : nat) (ms : list msg) : ghost :=
   match ms with
   | [] => g
   | m :: r =>
       let g1 := if received n cid m then ghost_request g m else g in
-      ghost_frames (fst (dispatch n cid m)) (ghost_outs g1 (snd (dispatch n cid m))) cid r
+      let g2 := ghost_drop g1 (gone_between n (fst (dispatch n cid m))) in
+      let g3 := ghost_outs g2 (snd (dispatch n cid m)) in
+      let g4 := if cer_unexpected n cid m then ghost_unbind g3 (m_hbh m) (m_e2e m) else g3 in
+      ghost_frames (fst (dispatch n cid m)) g4 cid r
   end.
 
 (* one event.  A network read: the frames, one after the other, in the state in which the reader thread
@@ -419,9 +653,23 @@ Definition ghost_step (n : node) (ds : dials) (e : event) (g : ghost) : ghost :=
   | ERecv cid ms =>
       match get_conn n cid with
       | None => g
-      | Some _ => ghost_frames (read_state n ds cid) g cid ms
+      | Some _ =>
+          let rs := read_state n ds cid in
+          let g1 := ghost_frames rs (ghost_drop g (gone_between n rs)) cid ms in
+          ghost_drop g1 (gone_between (fst (dispatch_all rs cid ms)) (fst (step n ds e)))
       end
-  | _ => ghost_outs g (snd (step n ds e))
+  | EAppAnswer _ m =>
+      match fst (route_answer n m) with
+      | Some _ =>
+          (* Node.route_answer takes the answer's pair out of the per-host table, then the answer is queued,
+             then the I/O thread may close connections *)
+          ghost_drop (ghost_outs g (snd (step n ds e))) (gone_between (snd (route_answer n m)) (fst (step n ds e)))
+      | None =>
+          (* not routable (the trace entry is [ONotRoutable]): when a host was waiting for it, its connection
+             is gone or no longer ready and the request is forgotten *)
+          if waits n (o_hbh m, o_e2e m) then ghost_unbind g (o_hbh m) (o_e2e m) else g
+      end
+  | _ => ghost_drop (ghost_outs g (snd (step n ds e))) (gone_between n (fst (step n ds e)))
   end.
 
 Fixpoint ghost_run (n : node) (g : ghost) (evs : list (dials * event)) : ghost :=
@@ -555,26 +803,43 @@ Definition Inv (n : node) (g : ghost) : Prop :=
   fst g = n_origin_waiting n /\
   forall o, sa_get (n_sent_answers n) o = lastn (g_rsize (n_cfg n)) (answers_of (snd g) o).
 
-Lemma Inv_keeps n n' g : keeps n n' -> Inv n g -> Inv n' g.
-Proof. intros (K1 & K2 & K3) [H1 H2]. unfold Inv. rewrite K1, K2, K3. split; assumption. Qed.
+Lemma Inv_kept n n' g : kept n n' -> Inv n g -> Inv n' g.
+Proof. intros (K1 & K2 & K3 & _) [H1 H2]. unfold Inv. rewrite K1, K2, K3. split; assumption. Qed.
 
-(* a node function result: the invariant is carried along its outputs *)
+(* connections close: the ghost drops what the node drops *)
+Lemma Inv_keeps n n' g : keeps n n' -> Inv n g -> Inv n' (ghost_drop g (gone_between n n')).
+Proof.
+  intros K [H1 H2]. destruct (keeps_spec n n' K) as (K2 & K3 & _ & K1). unfold Inv, ghost_drop, gone_between.
+  cbn [fst snd]. rewrite K1, K2, K3, H1. split; [reflexivity|exact H2].
+Qed.
+
+(* a node function result that closes nothing: the invariant is carried along its outputs and no host
+   leaves the per-host table *)
 Definition tr (n : node) (r : node * list output) : Prop :=
-  forall g, Inv n g -> Inv (fst r) (ghost_outs g (snd r)).
+  (forall g, Inv n g -> Inv (fst r) (ghost_outs g (snd r))) /\ hsub (n_peer_waiting n) (n_peer_waiting (fst r)).
 
-Lemma tr_quiet n n' outs : keeps n n' -> rq outs -> tr n (n', outs).
-Proof. intros K R g H. cbn [fst snd]. rewrite (ghost_outs_rq _ R). eapply Inv_keeps; eassumption. Qed.
+Lemma tr_quiet n n' outs : kept n n' -> rq outs -> tr n (n', outs).
+Proof.
+  intros K R. split; [|apply K]. intros g H. cbn [fst snd]. rewrite (ghost_outs_rq _ R). eapply Inv_kept; eassumption.
+Qed.
 Lemma tr_nil n : tr n (n, []).
-Proof. apply tr_quiet; [apply keeps_refl|apply rq_nil]. Qed.
+Proof. apply tr_quiet; [apply kept_refl|apply rq_nil]. Qed.
 Lemma tr_app n n1 o1 n2 o2 : tr n (n1, o1) -> tr n1 (n2, o2) -> tr n (n2, (o1 ++ o2)%list).
-Proof. intros T1 T2 g H. cbn [fst snd]. rewrite ghost_outs_app. apply (T2 _ (T1 _ H)). Qed.
-Lemma tr_pre n n0 r : keeps n n0 -> tr n0 r -> tr n r.
-Proof. intros K T g H. apply T. eapply Inv_keeps; eassumption. Qed.
-Lemma tr_post n n1 o n2 : tr n (n1, o) -> keeps n1 n2 -> tr n (n2, o).
-Proof. intros T K g H. cbn [fst snd]. eapply Inv_keeps; [exact K|]. exact (T _ H). Qed.
+Proof.
+  intros [T1 S1] [T2 S2]. split; [|intros k H; apply S2, S1, H].
+  intros g H. cbn [fst snd]. rewrite ghost_outs_app. apply (T2 _ (T1 _ H)).
+Qed.
+Lemma tr_pre n n0 r : kept n n0 -> tr n0 r -> tr n r.
+Proof.
+  intros K [T S]. split; [|intros k H; apply S, K, H]. intros g H. apply T. eapply Inv_kept; eassumption.
+Qed.
+Lemma tr_post n n1 o n2 : tr n (n1, o) -> kept n1 n2 -> tr n (n2, o).
+Proof.
+  intros [T S] K. split; [|intros k H; apply K, S, H]. intros g H. cbn [fst snd]. eapply Inv_kept; [exact K|]. exact (T _ H).
+Qed.
 Lemma tr_cons_other n n' x o : is_queue x = false -> tr n (n', o) -> tr n (n', x :: o).
 Proof.
-  intros Hx T g H. cbn [fst snd ghost_outs List.fold_left].
+  intros Hx [T S]. split; [|exact S]. intros g H. cbn [fst snd ghost_outs List.fold_left].
   replace (ghost_out g x) with g by (destruct x; try reflexivity; discriminate Hx). exact (T _ H).
 Qed.
 
@@ -591,54 +856,114 @@ Proof.
   - apply String.eqb_neq in E. rewrite W2 by (intros E'; apply E; symmetry; exact E'). apply Hw.
 Qed.
 
+(* the only thing an answer on its way out changes in the per-host table: its pair leaves a list *)
+Definition psim (p : Z * Z) (n n' : node) : Prop :=
+  n_origin_waiting n' = n_origin_waiting n /\ n_sent_answers n' = n_sent_answers n /\ n_cfg n' = n_cfg n
+  /\ (n_peer_waiting n' = n_peer_waiting n \/ exists h, n_peer_waiting n' = pw_remove (n_peer_waiting n) h p).
+Lemma psim_kept p n n' : psim p n n' -> kept n n'.
+Proof.
+  intros (E1 & E2 & E3 & [E4|[h E4]]); [apply same4_kept; repeat split; assumption|].
+  eapply kept_pw_remove; eassumption.
+Qed.
+
 Lemma send_answer_eq n cid a :
   o_req a = false ->
-  exists n2, keeps n n2 /\ send_message n cid a = (record_answer n2 (o_hbh a) (o_e2e a), [OQueue cid a]).
+  exists n2, psim (o_hbh a, o_e2e a) n n2
+             /\ send_message n cid a = (record_answer n2 (o_hbh a) (o_e2e a), [OQueue cid a]).
 Proof.
   intros H. unfold send_message, queue_out. rewrite H. eexists. split; [|reflexivity].
-  destruct (get_conn n cid); kp.
+  destruct (get_conn n cid); repeat split; solve [left; reflexivity | right; eexists; reflexivity].
 Qed.
+
+Lemma record_answer_pw n h e : n_peer_waiting (record_answer n h e) = n_peer_waiting n.
+Proof. rewrite record_answer_eq. destruct (ow_get _ h e); reflexivity. Qed.
+
+Lemma send_req_kept n cid m : o_req m = true -> kept n (fst (send_message n cid m)).
+Proof. intros H. unfold send_message, queue_out. rewrite H. kp. Qed.
 
 (* Node.send_message: a request leaves everything alone; an answer is recorded / attributed *)
 Lemma tr_send n cid a : tr n (send_message n cid a).
 Proof.
   destruct (o_req a) eqn:Hr.
-  - rewrite send_message_pair. apply tr_quiet; [apply send_req_k; exact Hr|].
+  - rewrite send_message_pair. apply tr_quiet; [apply send_req_kept; exact Hr|].
     constructor; [exact Hr|constructor].
-  - destruct (send_answer_eq n cid a Hr) as (n2 & K & E). rewrite E. intros g H.
-    cbn [fst snd ghost_outs List.fold_left ghost_out]. rewrite Hr.
-    apply Inv_record. eapply Inv_keeps; eassumption.
+  - destruct (send_answer_eq n cid a Hr) as (n2 & K & E). rewrite E. apply psim_kept in K. split.
+    + intros g H. cbn [fst snd ghost_outs List.fold_left ghost_out]. rewrite Hr.
+      apply Inv_record. eapply Inv_kept; eassumption.
+    + cbn [fst]. rewrite record_answer_pw. apply K.
 Qed.
 
-Lemma tr_close n cid r : tr n (close_conn n cid r).
+Lemma same4_refl n : same4 n n.
+Proof. repeat split. Qed.
+Lemma same4_trans a b c : same4 a b -> same4 b c -> same4 a c.
+Proof. intros (A1 & A2 & A3 & A4) (B1 & B2 & B3 & B4). repeat split; congruence. Qed.
+Ltac s4 := solve [repeat split; reflexivity].
+
+Lemma send_hosts n cid a : hosts (n_peer_waiting (fst (send_message n cid a))) = hosts (n_peer_waiting n).
+Proof.
+  unfold send_message, queue_out. destruct (o_req a); [reflexivity|]. cbn [fst]. rewrite record_answer_pw.
+  destruct (get_conn n cid); [|reflexivity]. cbn. apply hosts_pw_remove.
+Qed.
+
+(* a node function result in general: first some connections are closed (nothing else is put out), then
+   nothing is closed any more; whether a host has left the table is settled in the first part *)
+Definition trc (n : node) (r : node * list output) : Prop :=
+  exists n1 o1 o2, snd r = (o1 ++ o2)%list /\ keeps n n1 /\ rq o1 /\ tr n1 (fst r, o2)
+    /\ forall k, List.In k (hosts (n_peer_waiting n)) ->
+         (List.In k (hosts (n_peer_waiting (fst r))) <-> List.In k (hosts (n_peer_waiting n1))).
+
+Lemma trc_tr n r : tr n r -> trc n r.
+Proof.
+  destruct r as [n' o]. intros T. exists n, [], o. split; [reflexivity|]. split; [apply keeps_refl|].
+  split; [apply rq_nil|]. split; [exact T|]. intros k H. split; [intros _; exact H|intros _; apply T, H].
+Qed.
+Lemma trc_keeps n n' o : keeps n n' -> rq o -> trc n (n', o).
+Proof.
+  intros K R. exists n', o, []. split; [symmetry; apply List.app_nil_r|]. split; [exact K|]. split; [exact R|].
+  split; [apply tr_nil|]. intros k H. reflexivity.
+Qed.
+Lemma trc_close n cid r : trc n (close_conn n cid r).
 Proof.
   pose proof (close_conn_k n cid r) as K. pose proof (close_conn_rq n cid r) as R.
-  destruct (close_conn n cid r) as [n1 o1]. apply tr_quiet; assumption.
+  destruct (close_conn n cid r) as [n1 o1]. apply trc_keeps; assumption.
+Qed.
+Lemma trc_pre n n0 r : same4 n n0 -> trc n0 r -> trc n r.
+Proof.
+  intros S (n1 & o1 & o2 & E & K & R & T & Hh). exists n1, o1, o2. split; [exact E|].
+  split; [eapply same4_keeps; eassumption|]. split; [exact R|]. split; [exact T|].
+  destruct S as (S1 & _). rewrite <- S1. exact Hh.
 Qed.
 
 Lemma only_close_rq outs : only_close outs -> rq outs.
 Proof. apply Forall_impl. intros [] H; try contradiction H; exact I. Qed.
 
 (* close some connections, then send one message from a state that differs from the result only in
-   what `keeps` ignores *)
-Lemma tr_then_send n n1 oel X cid a :
-  keeps n n1 -> rq oel -> keeps n1 X ->
-  tr n (let '(n2, o) := send_message X cid a in (n2, (oel ++ o)%list)).
+   what `same4` ignores *)
+Lemma trc_then_send n n1 oel X cid a :
+  keeps n n1 -> rq oel -> same4 n1 X ->
+  trc n (let '(n2, o) := send_message X cid a in (n2, (oel ++ o)%list)).
 Proof.
-  intros K1 R K2. pose proof (tr_send X cid a) as T. destruct (send_message X cid a) as [n2 o].
-  eapply tr_app; [apply tr_quiet; eassumption|]. eapply tr_pre; eassumption.
+  intros K1 R K2. pose proof (tr_send X cid a) as T. pose proof (send_hosts X cid a) as Hs.
+  destruct (send_message X cid a) as [n2 o]. cbn [fst] in *.
+  exists X, oel, o. split; [reflexivity|]. split; [eapply keeps_trans; [exact K1|apply k_same; exact K2]|].
+  split; [exact R|]. split; [exact T|]. intros k _. cbn [fst]. rewrite Hs. reflexivity.
 Qed.
 
-Lemma tr_recv_cer n cid m : tr n (recv_cer n cid m).
+(* Node.recv_cer: either as above, or the request is ignored (the connection is not awaiting a CER) and forgotten *)
+Lemma trc_recv_cer n cid m :
+  trc n (recv_cer n cid m)
+  \/ exists c0, get_conn n cid = Some c0 /\ cstate_eqb (c_state c0) SConnected = false
+                /\ recv_cer n cid m = (drop_origin n (m_hbh m) (m_e2e m), []).
 Proof.
   unfold recv_cer.
-  destruct (get_conn n cid) as [c0|]; [|apply tr_nil].
-  destruct (negb (cstate_eqb (c_state c0) SConnected)); [apply tr_nil|].
-  destruct (pres_get (m_origin m)) as [host|]; [|apply tr_nil].
-  destruct (get_peer n host) as [p|]; [|eapply tr_pre; [|apply tr_send]; kp].
+  destruct (get_conn n cid) as [c0|]; [|left; apply trc_tr, tr_nil].
+  destruct (cstate_eqb (c_state c0) SConnected) eqn:Es; cbn [negb];
+    [left|right; exists c0; split; [reflexivity|split; [exact Es|reflexivity]]].
+  destruct (pres_get (m_origin m)) as [host|]; [|apply trc_tr, tr_nil].
+  destruct (get_peer n host) as [p|]; [|apply trc_tr; eapply tr_pre; [|apply tr_send]; kp].
   cbv zeta.
   destruct (election_rivals _ cid host) as [|r0 rs];
-    [|destruct (String.ltb host _); [|eapply tr_pre; [|apply tr_send]; kp]];
+    [|destruct (String.ltb host _); [|apply trc_tr; eapply tr_pre; [|apply tr_send]; kp]];
     (match goal with |- context [close_all ?a ?b ?c] =>
        pose proof (close_all_k b a c) as Hk; pose proof (only_close_rq _ (close_all_only_close b a c)) as Hq;
        assert (K0 : keeps n a) by kp;
@@ -646,23 +971,23 @@ Proof.
      cbn [fst snd] in Hk, Hq;
      destruct (inter_z _ (m_auth m)); destruct (inter_z _ (m_acct m));
        destruct (mem_z APP_RELAY (m_auth m) || mem_z APP_RELAY (m_acct m));
-       (apply (tr_then_send n n1);
+       (apply (trc_then_send n n1);
         [eapply keeps_trans; eassumption | exact Hq |
-         first [apply keeps_refl
-               | eapply keeps_trans; [|apply flag_ready_k]; eapply keeps_trans; [|apply assign_peer_conn_k]; kp]])).
+         first [apply same4_refl
+               | eapply same4_trans; [|apply flag_ready_k]; eapply same4_trans; [|apply assign_peer_conn_k]; s4]])).
 Qed.
 
-Lemma tr_recv_cea n cid m : tr n (recv_cea n cid m).
+Lemma trc_recv_cea n cid m : trc n (recv_cea n cid m).
 Proof.
   unfold recv_cea.
-  destruct (get_conn n cid) as [c0|]; [|apply tr_nil].
-  destruct (negb (cstate_eqb (c_state c0) SConnected)); [apply tr_nil|].
-  apply (match_2001 (tr n)); [|apply tr_close].
-  destruct (pres_get (m_origin m)) as [host|]; [|apply tr_nil].
+  destruct (get_conn n cid) as [c0|]; [|apply trc_tr, tr_nil].
+  destruct (negb (cstate_eqb (c_state c0) SConnected)); [apply trc_tr, tr_nil|].
+  apply (match_2001 (trc n)); [|apply trc_close].
+  destruct (pres_get (m_origin m)) as [host|]; [|apply trc_tr, tr_nil].
   destruct (negb (String.eqb (c_node_name c0) "") && negb (String.eqb host (c_node_name c0)));
-    [apply tr_close|].
-  apply tr_quiet; [|apply rq_nil].
-  eapply keeps_trans; [|apply flag_ready_k]. eapply keeps_trans; [|apply assign_peer_conn_k]. kp.
+    [apply trc_close|].
+  apply trc_tr, tr_quiet; [|apply rq_nil]. apply same4_kept.
+  eapply same4_trans; [|apply flag_ready_k]. eapply same4_trans; [|apply assign_peer_conn_k]. s4.
 Qed.
 
 Lemma tr_recv_dpr n cid m : tr n (recv_dpr n cid m).
@@ -672,12 +997,12 @@ Proof.
   match goal with |- context [match find_conn_peer ?a ?b with _ => _ end] => destruct (find_conn_peer a b) end; kp.
 Qed.
 
-Lemma tr_recv_dpa n cid : tr n (recv_dpa n cid).
+Lemma trc_recv_dpa n cid : trc n (recv_dpa n cid).
 Proof.
   unfold recv_dpa. cbv zeta.
-  destruct (get_conn _ cid) as [c|]; [|apply tr_quiet; [kp|apply rq_nil]].
-  destruct (c_out c); [|apply tr_quiet; [kp|apply rq_nil]].
-  eapply tr_pre; [|apply tr_close]. kp.
+  destruct (get_conn _ cid) as [c|]; [|apply trc_tr, tr_quiet; [kp|apply rq_nil]].
+  destruct (c_out c); [|apply trc_tr, tr_quiet; [kp|apply rq_nil]].
+  eapply trc_pre; [|apply trc_close]. s4.
 Qed.
 
 Lemma tr_recv_app_request n cid m : tr n (recv_app_request n cid m).
@@ -689,9 +1014,11 @@ Proof.
   destruct (List.find _ entries) as [[[i|] names]|]; try apply tr_send.
   destruct (handler_raises m).
   - match goal with |- context [send_message ?x cid ?a] =>
-      pose proof (tr_send x cid a) as T; assert (K : keeps n x) by kp; destruct (send_message x cid a) as [n2 o] end.
+      pose proof (tr_send x cid a) as T;
+      assert (K : kept n x) by (repeat split; try reflexivity; apply hsub_pw_add);
+      destruct (send_message x cid a) as [n2 o] end.
     apply tr_cons_other; [reflexivity|]. eapply tr_pre; eassumption.
-  - apply tr_quiet; [kp|]. constructor; [exact I|constructor].
+  - apply tr_quiet; [repeat split; try reflexivity; apply hsub_pw_add|]. constructor; [exact I|constructor].
 Qed.
 
 Lemma tr_recv_app_answer n m : tr n (recv_app_answer n m).
@@ -703,17 +1030,25 @@ Proof.
     (apply tr_quiet; [kp|constructor; [exact I|constructor]]).
 Qed.
 
-Lemma tr_rm_handle n cid m : tr n (rm_handle n cid m).
+(* the connection of the frame is not awaiting a CER, and the frame is one *)
+Definition cer_cond (n : node) (cid : nat) (m : msg) : Prop :=
+  exists c0, get_conn n cid = Some c0 /\ cstate_eqb (c_state c0) SConnected = false /\ m_req m = true /\ m_cmd m = CE.
+
+Lemma trc_rm_handle n cid m :
+  trc n (rm_handle n cid m)
+  \/ (cer_cond n cid m /\ rm_handle n cid m = (drop_origin n (m_hbh m) (m_e2e m), [])).
 Proof.
-  unfold rm_handle. destruct (m_req m), (m_cmd m).
-  - destruct (m_origin m); try apply tr_send. apply tr_recv_cer.
-  - unfold recv_dwr. apply tr_send.
-  - apply tr_recv_dpr.
-  - apply tr_recv_app_request.
-  - apply tr_recv_cea.
-  - unfold recv_dwa. apply tr_quiet; [kp|apply rq_nil].
-  - apply tr_recv_dpa.
-  - apply tr_recv_app_answer.
+  unfold rm_handle, cer_cond. destruct (m_req m), (m_cmd m).
+  - destruct (m_origin m); try (left; apply trc_tr, tr_send).
+    destruct (trc_recv_cer n cid m) as [T|(c0 & Hc & Hs & E)]; [left; exact T|right].
+    split; [exists c0; repeat split; assumption|exact E].
+  - left. unfold recv_dwr. apply trc_tr, tr_send.
+  - left. apply trc_tr, tr_recv_dpr.
+  - left. apply trc_tr, tr_recv_app_request.
+  - left. apply trc_recv_cea.
+  - left. unfold recv_dwa. apply trc_tr, tr_quiet; [kp|apply rq_nil].
+  - left. apply trc_recv_dpa.
+  - left. apply trc_tr, tr_recv_app_answer.
 Qed.
 
 (* the origin bookkeeping of _receive_message = the ghost's binding of the request's pair *)
@@ -724,61 +1059,237 @@ Proof.
     (split; [cbn [fst set_waiting n_origin_waiting]; rewrite Hp; reflexivity|exact Hw]).
 Qed.
 
-Lemma receive_message_inv n cid m g :
-  Inv n g -> Inv (fst (receive_message n cid m)) (ghost_outs (ghost_request g m) (snd (receive_message n cid m))).
+Lemma lost_ext pw pw1 pw2 :
+  (forall k, List.In k (hosts pw) -> (List.In k (hosts pw2) <-> List.In k (hosts pw1))) -> lost pw pw2 = lost pw pw1.
 Proof.
-  intros H. apply (Inv_request n g m) in H. rewrite receive_message_unfold.
-  revert H. generalize (ghost_request g m) as g0. generalize (rm_n0 n m) as n0. intros n0 g0 H.
-  revert g0 H. change (tr n0 (match (if m_req m && g_validate (n_cfg n0) then m_missing m else []) with
-                              | [] => if rm_dup n0 m then send_message n0 cid (answer_of m (Some RC_UNABLE) [])
-                                      else rm_handle n0 cid m
-                              | _ :: _ => send_message n0 cid
-                                  (answer_of m (Some RC_MISSING_AVP) (if m_has_failed_avp_slot m then m_missing m else []))
-                              end)).
-  destruct (if m_req m && g_validate (n_cfg n0) then m_missing m else []); [|apply tr_send].
-  destruct (rm_dup n0 m); [apply tr_send|apply tr_rm_handle].
+  intros H. unfold lost. f_equal. apply filter_ext_in. intros k Hk. f_equal.
+  apply Bool.eq_iff_eq_true. rewrite !mem_host_in. apply H. exact Hk.
+Qed.
+
+Lemma trc_inv n r g :
+  trc n r -> Inv n g -> Inv (fst r) (ghost_outs (ghost_drop g (gone_between n (fst r))) (snd r)).
+Proof.
+  intros (n1 & o1 & o2 & E & K & R & [T _] & Hh) H. rewrite E, ghost_outs_app, (ghost_outs_rq _ R).
+  unfold gone_between. rewrite (lost_ext _ _ _ Hh). apply (T _ (Inv_keeps _ _ _ K H)).
+Qed.
+
+Lemma rm_n0_pw n m : n_peer_waiting (rm_n0 n m) = n_peer_waiting n.
+Proof. unfold rm_n0, rm_record. destruct (m_origin m), (m_req m); reflexivity. Qed.
+
+(* ---- an application's answer: its pair has left the per-host lists before the I/O thread closes anything;
+   the pair is no longer pending then, so it does not matter that the ghost reads the table of the state
+   before the answer ---- *)
+Definition pair_ne (q p : Z * Z) : Prop := (fst p =? fst q) && (snd p =? snd q) = false.
+
+Lemma mem_remove_zz q p l : pair_ne q p -> mem_zz q (remove_zz p l) = mem_zz q l.
+Proof.
+  unfold pair_ne, mem_zz, remove_zz. intros Hn. induction l as [|y l IH]; [reflexivity|]. cbn [List.filter List.existsb].
+  destruct ((fst p =? fst y) && (snd p =? snd y)) eqn:E; cbn [negb].
+  - rewrite IH. apply Bool.andb_true_iff in E. destruct E as [E1 E2]. apply Z.eqb_eq in E1, E2.
+    rewrite <- E1, <- E2. rewrite (Z.eqb_sym (fst q)), (Z.eqb_sym (snd q)), Hn. reflexivity.
+  - cbn [List.existsb]. rewrite IH. reflexivity.
+Qed.
+
+Lemma look_pw_remove pw h0 p k :
+  look (pw_remove pw h0 p) k = if String.eqb k h0 then remove_zz p (look pw k) else look pw k.
+Proof.
+  unfold look, pw_remove. induction pw as [|e r IH]; [cbn; destruct (String.eqb k h0); reflexivity|].
+  cbn [List.map List.find].
+  destruct (String.eqb (fst e) h0) eqn:E1; cbn [fst snd]; destruct (String.eqb (fst e) k) eqn:E2; try exact IH.
+  - apply String.eqb_eq in E1, E2. rewrite <- E2, E1, String.eqb_refl. reflexivity.
+  - apply String.eqb_eq in E2. rewrite <- E2, E1. reflexivity.
+Qed.
+
+Lemma lost_pw_remove q pw h0 p pw3 :
+  pair_ne q p -> mem_zz q (lost (pw_remove pw h0 p) pw3) = mem_zz q (lost pw pw3).
+Proof.
+  intros Hn. unfold lost. rewrite hosts_pw_remove, !mem_zz_flat.
+  induction (List.filter _ (hosts pw)) as [|k l IH]; [reflexivity|]. cbn [List.existsb]. rewrite IH, look_pw_remove.
+  destruct (String.eqb k h0); [rewrite (mem_remove_zz _ _ _ Hn)|]; reflexivity.
+Qed.
+
+Lemma ow_drop_psim p n n' pw3 ow :
+  psim p n n' -> (forall h e o, List.In (h, e, o) ow -> pair_ne (h, e) p) ->
+  ow_drop (lost (n_peer_waiting n') pw3) ow = ow_drop (lost (n_peer_waiting n) pw3) ow.
+Proof.
+  intros (_ & _ & _ & [E|[h0 E]]) Hn; rewrite E; [reflexivity|].
+  apply List.filter_ext_in. intros [[h e] o] Hin. rewrite (lost_pw_remove _ _ _ _ _ (Hn _ _ _ Hin)). reflexivity.
+Qed.
+
+Lemma ow_get_none ow hb ee h e o :
+  ow_get ow hb ee = None -> List.In (h, e, o) ow -> (h =? hb) && (e =? ee) = false.
+Proof.
+  induction ow as [|[[h' e'] o'] r IH]; intros G Hin; [destruct Hin|]. cbn [ow_get] in G.
+  destruct ((h' =? hb) && (e' =? ee)) eqn:E; [discriminate G|]. destruct Hin as [Hin|Hin]; [|exact (IH G Hin)].
+  injection Hin as -> -> _. exact E.
+Qed.
+
+Lemma record_answer_no_entry n hb ee h e o :
+  List.In (h, e, o) (n_origin_waiting (record_answer n hb ee)) -> pair_ne (h, e) (hb, ee).
+Proof.
+  unfold pair_ne. cbn [fst snd]. rewrite (Z.eqb_sym hb), (Z.eqb_sym ee). rewrite record_answer_eq.
+  destruct (ow_get (n_origin_waiting n) hb ee) eqn:G; [|apply ow_get_none; exact G].
+  cbn [n_origin_waiting set_waiting]. unfold ow_remove. intros Hin. apply List.filter_In in Hin. destruct Hin as [_ Hb].
+  destruct ((h =? hb) && (e =? ee)); [discriminate Hb|reflexivity].
+Qed.
+
+Lemma send_then_drop n cid a pw3 :
+  ow_drop (lost (n_peer_waiting (fst (send_message n cid a))) pw3) (n_origin_waiting (fst (send_message n cid a)))
+  = ow_drop (lost (n_peer_waiting n) pw3) (n_origin_waiting (fst (send_message n cid a))).
+Proof.
+  destruct (o_req a) eqn:Hr.
+  - replace (n_peer_waiting (fst (send_message n cid a))) with (n_peer_waiting n); [reflexivity|].
+    unfold send_message, queue_out. rewrite Hr. reflexivity.
+  - destruct (send_answer_eq n cid a Hr) as (n2 & K & E). rewrite E. cbn [fst]. rewrite record_answer_pw.
+    apply (ow_drop_psim _ _ _ _ _ K). intros h e o Hin. eapply record_answer_no_entry. exact Hin.
+Qed.
+
+(* ---- one frame ---- *)
+Lemma ghost_drop_same g n : ghost_drop g (gone_between n n) = g.
+Proof. unfold ghost_drop, gone_between. rewrite lost_same, ow_drop_nil. destruct g; reflexivity. Qed.
+
+(* forgetting a request in the node (drop_origin) = unbinding its pair in the ghost *)
+Lemma Inv_unbind n g h e : Inv n g -> Inv (drop_origin n h e) (ghost_unbind g h e).
+Proof. intros [Hp Hw]. split; [cbn [fst ghost_unbind]; rewrite Hp; reflexivity|exact Hw]. Qed.
+
+Lemma ow_remove_id ow hb ee :
+  (forall h e o, List.In (h, e, o) ow -> (h =? hb) && (e =? ee) = false) -> ow_remove ow hb ee = ow.
+Proof.
+  induction ow as [|[[h e] o] r IH]; intros H; [reflexivity|]. unfold ow_remove. cbn [List.filter].
+  rewrite (H h e o (or_introl eq_refl)). cbn [negb]. f_equal. apply IH. intros h' e' o' Hin. eapply H. right. exact Hin.
+Qed.
+Lemma Inv_unbind_id n g hb ee :
+  (forall h e o, List.In (h, e, o) (n_origin_waiting n) -> (h =? hb) && (e =? ee) = false) ->
+  Inv n g -> Inv n (ghost_unbind g hb ee).
+Proof. intros Hn [Hp Hw]. split; [|exact Hw]. cbn [fst ghost_unbind]. rewrite Hp. apply ow_remove_id. exact Hn. Qed.
+
+Lemma send_answer_no_entry n cid a h e o :
+  o_req a = false -> List.In (h, e, o) (n_origin_waiting (fst (send_message n cid a))) ->
+  (h =? o_hbh a) && (e =? o_e2e a) = false.
+Proof.
+  intros Hr Hin. destruct (send_answer_eq n cid a Hr) as (n2 & _ & E). rewrite E in Hin. cbn [fst] in Hin.
+  apply record_answer_no_entry in Hin. unfold pair_ne in Hin. cbn [fst snd] in Hin.
+  rewrite (Z.eqb_sym h), (Z.eqb_sym e). exact Hin.
+Qed.
+
+(* an unexpected CER is not pending after its frame: it was answered with an error, or ignored and forgotten *)
+Lemma cer_no_entry n cid m :
+  cer_cond n cid m ->
+  forall h e o, List.In (h, e, o) (n_origin_waiting (fst (receive_message n cid m))) ->
+                (h =? m_hbh m) && (e =? m_e2e m) = false.
+Proof.
+  intros (c0 & Hc & Hs & Hr & Hcmd) h e o. rewrite receive_message_unfold.
+  destruct (if m_req m && _ then _ else _); [|apply (send_answer_no_entry _ _ (answer_of m _ _)); reflexivity].
+  destruct (rm_dup _ m); [apply (send_answer_no_entry _ _ (answer_of m _ _)); reflexivity|].
+  unfold rm_handle. rewrite Hr, Hcmd.
+  destruct (m_origin m) eqn:Ho; try (apply (send_answer_no_entry _ _ (answer_of m _ _)); reflexivity).
+  unfold recv_cer. rewrite rm_n0_get_conn, Hc, Hs. cbn [negb fst]. unfold drop_origin.
+  cbn [n_origin_waiting set_waiting]. intros Hin. apply List.filter_In in Hin. destruct Hin as [_ Hb].
+  destruct ((h =? m_hbh m) && (e =? m_e2e m)); [discriminate Hb|reflexivity].
+Qed.
+
+Lemma handle_inv n0 cid m g0 r :
+  trc n0 r \/ (cer_cond n0 cid m /\ r = (drop_origin n0 (m_hbh m) (m_e2e m), [])) -> Inv n0 g0 ->
+  Inv (fst r) (ghost_outs (ghost_drop g0 (gone_between n0 (fst r))) (snd r))
+  \/ (cer_cond n0 cid m
+      /\ Inv (fst r) (ghost_unbind (ghost_outs (ghost_drop g0 (gone_between n0 (fst r))) (snd r)) (m_hbh m) (m_e2e m))).
+Proof.
+  intros [T|[C E]] H; [left; apply trc_inv; assumption|right]. split; [exact C|]. subst r.
+  cbn [fst snd ghost_outs List.fold_left].
+  change (gone_between n0 (drop_origin n0 (m_hbh m) (m_e2e m))) with (gone_between n0 n0).
+  rewrite ghost_drop_same. apply Inv_unbind, H.
+Qed.
+
+Lemma receive_message_inv n cid m g :
+  Inv n g ->
+  Inv (fst (receive_message n cid m))
+      (ghost_outs (ghost_drop (ghost_request g m) (gone_between n (fst (receive_message n cid m))))
+                  (snd (receive_message n cid m)))
+  \/ (cer_cond n cid m
+      /\ Inv (fst (receive_message n cid m))
+             (ghost_unbind (ghost_outs (ghost_drop (ghost_request g m) (gone_between n (fst (receive_message n cid m))))
+                                       (snd (receive_message n cid m))) (m_hbh m) (m_e2e m))).
+Proof.
+  intros H. apply (Inv_request n g m) in H.
+  assert (Hcc : cer_cond (rm_n0 n m) cid m -> cer_cond n cid m) by (unfold cer_cond; rewrite rm_n0_get_conn; trivial).
+  assert (Hr : trc (rm_n0 n m) (receive_message n cid m)
+               \/ (cer_cond (rm_n0 n m) cid m
+                   /\ receive_message n cid m = (drop_origin (rm_n0 n m) (m_hbh m) (m_e2e m), []))).
+  { rewrite receive_message_unfold.
+    destruct (if m_req m && g_validate (n_cfg (rm_n0 n m)) then m_missing m else []); [|left; apply trc_tr, tr_send].
+    destruct (rm_dup (rm_n0 n m) m); [left; apply trc_tr, tr_send|apply trc_rm_handle]. }
+  destruct (handle_inv _ cid m _ _ Hr H) as [A|[C A]]; unfold gone_between in *; rewrite (rm_n0_pw n m) in A;
+    [left; exact A|right; split; [apply Hcc, C|exact A]].
+Qed.
+
+Lemma cer_cond_iff n cid m c :
+  get_conn n cid = Some c -> gate_passes c m = true -> (cer_unexpected n cid m = true <-> cer_cond n cid m).
+Proof.
+  intros Hc Hg. unfold cer_unexpected, cer_cond. rewrite Hc, Hg. cbn [andb]. split.
+  - intros H. apply Bool.andb_true_iff in H. destruct H as [H H3]. apply Bool.andb_true_iff in H. destruct H as [H1 H2].
+    exists c. split; [reflexivity|]. split; [destruct (cstate_eqb _ _); [discriminate H3|reflexivity]|].
+    split; [exact H1|]. destruct (m_cmd m); try discriminate H2. reflexivity.
+  - intros (c0 & E & Hs & Hr & Hcmd). injection E as <-. rewrite Hs, Hr, Hcmd. reflexivity.
 Qed.
 
 Lemma dispatch_inv n cid m g :
   Inv n g ->
   Inv (fst (dispatch n cid m))
-      (ghost_outs (if received n cid m then ghost_request g m else g) (snd (dispatch n cid m))).
+      (let g3 := ghost_outs (ghost_drop (if received n cid m then ghost_request g m else g)
+                                        (gone_between n (fst (dispatch n cid m)))) (snd (dispatch n cid m)) in
+       if cer_unexpected n cid m then ghost_unbind g3 (m_hbh m) (m_e2e m) else g3).
 Proof.
-  intros H. unfold dispatch, received. destruct (get_conn n cid) as [c|]; [|exact H].
-  destruct (gate_passes c m); [apply receive_message_inv; exact H|exact H].
+  intros H. cbv zeta. unfold dispatch, received.
+  destruct (get_conn n cid) as [c|] eqn:Hc;
+    [|unfold cer_unexpected; rewrite Hc; cbn [fst snd]; rewrite ghost_drop_same; exact H].
+  destruct (gate_passes c m) eqn:Hg;
+    [|unfold cer_unexpected; rewrite Hc, Hg; cbn [fst snd andb]; rewrite ghost_drop_same; exact H].
+  pose proof (cer_cond_iff n cid m c Hc Hg) as Hi.
+  destruct (receive_message_inv n cid m g H) as [A|[C A]]; destruct (cer_unexpected n cid m).
+  - apply Inv_unbind_id; [apply cer_no_entry, Hi; reflexivity|exact A].
+  - exact A.
+  - exact A.
+  - apply Hi in C. discriminate C.
 Qed.
 
 Lemma frames_inv cid ms : forall n g,
   Inv n g -> Inv (fst (dispatch_all n cid ms)) (ghost_frames n g cid ms).
 Proof.
   induction ms as [|m r IH]; intros n g H; [exact H|].
-  rewrite dispatch_all_cons. cbn [fst ghost_frames]. apply IH. apply dispatch_inv. exact H.
+  rewrite dispatch_all_cons. cbn [fst ghost_frames]. apply IH. apply (dispatch_inv n cid m g H).
 Qed.
+
+Lemma read_state_k n ds cid : keeps n (read_state n ds cid).
+Proof. unfold read_state. eapply keeps_trans; [apply io_iteration_k|]. kp. Qed.
 
 Lemma step_inv_g n ds e g : Inv n g -> Inv (fst (step n ds e)) (ghost_step n ds e g).
 Proof.
   intros H.
   assert (Hother : (forall cid ms, e <> ERecv cid ms) -> (forall i m, e <> EAppAnswer i m) ->
-                   Inv (fst (step n ds e)) (ghost_outs g (snd (step n ds e)))).
+                   Inv (fst (step n ds e))
+                       (ghost_drop (ghost_outs g (snd (step n ds e))) (gone_between n (fst (step n ds e))))).
   { intros H1 H2. rewrite (ghost_outs_rq _ (step_rq n ds e H1 H2)).
-    eapply Inv_keeps; [apply step_k; assumption|exact H]. }
+    apply Inv_keeps; [apply step_k; assumption|exact H]. }
   destruct e as [hbh0|cid ms|cid|cid hard|cid ok|cid b|dt|i m|i m realm pick tmo|force|tclose tend|];
     try (apply Hother; intros; discriminate).
   - (* ERecv *)
     cbn [ghost_step]. destruct (get_conn n cid) as [c|] eqn:Hc.
-    + rewrite (step_recv_eq n ds cid ms c Hc). cbn [fst].
-      eapply Inv_keeps; [apply settle'_k|]. apply frames_inv.
-      eapply Inv_keeps; [|exact H]. unfold read_state.
-      eapply keeps_trans; [apply io_iteration_k|]. kp.
+    + cbv zeta. rewrite (step_recv_eq n ds cid ms c Hc). cbn [fst].
+      apply Inv_keeps; [apply settle'_k|]. apply frames_inv.
+      apply Inv_keeps; [apply read_state_k|exact H].
     + cbn [step]. rewrite Hc. exact H.
   - (* EAppAnswer *)
-    cbn [ghost_step]. clear Hother. revert g H. change (tr n (step n ds (EAppAnswer i m))). cbn [step].
-    pose proof (route_answer_k n m) as K. destruct (route_answer n m) as [[cid|] n1]; cbn [snd] in K.
-    + pose proof (tr_send n1 cid m) as T. destruct (send_message n1 cid m) as [n2 o2].
+    cbn [ghost_step]. clear Hother. cbn [step].
+    pose proof (route_answer_k n m) as K. destruct (route_answer n m) as [[cid|] n1]; cbn [fst snd] in K |- *.
+    + pose proof (tr_send n1 cid m) as [T _]. pose proof (send_then_drop n1 cid m) as Hd.
+      destruct (send_message n1 cid m) as [n2 o2].
       pose proof (settle_app'_k n2 ds) as K3. pose proof (settle_app'_rq n2 ds) as R3.
       destruct (settle_app' n2 ds) as [n3 o3]. cbn [fst snd] in *.
-      eapply tr_pre; [exact K|]. eapply tr_app; [exact T|]. apply tr_quiet; assumption.
-    + apply tr_quiet; [exact K|]. constructor; [exact I|constructor].
+      rewrite ghost_outs_app, (ghost_outs_rq _ R3).
+      pose proof (T _ (Inv_kept _ _ _ K H)) as H2. pose proof (Inv_keeps _ _ _ K3 H2) as H3.
+      unfold ghost_drop, gone_between in *. destruct H2 as [H2 _]. rewrite H2, Hd in H3. rewrite H2. exact H3.
+    + destruct K as (K1 & K2 & K3). destruct H as [Hp Hw]. unfold Inv. rewrite K1, K2, K3.
+      destruct (waits n (o_hbh m, o_e2e m)); (split; [|exact Hw]); [cbn [fst ghost_unbind]; rewrite Hp|exact Hp]; reflexivity.
 Qed.
 
 Lemma run_inv evs : forall n g, Inv n g -> Inv (fst (run n evs)) (ghost_run n g evs).
@@ -866,9 +1377,6 @@ Proof.
   destruct o; try contradiction Ho; reflexivity.
 Qed.
 
-Lemma read_state_k n ds cid : keeps n (read_state n ds cid).
-Proof. unfold read_state. eapply keeps_trans; [apply io_iteration_k|]. kp. Qed.
-
 (* membership in the window the reader thread consults = membership in the tail of the history *)
 Lemma window_mem n0 evs ds cid o e :
   wf_init n0 ->
@@ -878,12 +1386,12 @@ Proof.
   intros Hw.
   assert (Hreach : reach n0 (fst (run n0 evs))) by (exists evs; split; [exact Hw|reflexivity]).
   destruct (C19_windows_bounded _ _ Hreach) as (_ & Hnd & _).
-  destruct (read_state_k (fst (run n0 evs)) ds cid) as (_ & K2 & _). rewrite K2.
+  destruct (keeps_spec _ _ (read_state_k (fst (run n0 evs)) ds cid)) as (K2 & _). rewrite K2.
   rewrite (C17_sa_mem_get _ o e Hnd), (C17_history_window n0 evs o Hw). reflexivity.
 Qed.
 
 Lemma read_state_cfg n0 evs ds cid : n_cfg (read_state (fst (run n0 evs)) ds cid) = n_cfg n0.
-Proof. destruct (read_state_k (fst (run n0 evs)) ds cid) as (_ & _ & K3). rewrite K3. apply run_cfg. Qed.
+Proof. destruct (keeps_spec _ _ (read_state_k (fst (run n0 evs)) ds cid)) as (_ & K3 & _). rewrite K3. apply run_cfg. Qed.
 
 (* ====================================================================== *)
 (* 7. C17: duplicates are rejected, nothing else is                         *)
@@ -1023,10 +1531,14 @@ Proof.
   - rewrite dispatch_all_cons. cbn [ghost_frames snd].
     set (g1 := if received n cid m then ghost_request g m else g).
     assert (E0 : snd g1 = snd g) by (unfold g1; destruct (received n cid m); [apply ghost_request_hist|reflexivity]).
-    destruct (ghost_outs_hist (snd (dispatch n cid m)) g1) as (a1 & E1 & F1).
-    destruct (IH (fst (dispatch n cid m)) (ghost_outs g1 (snd (dispatch n cid m)))) as (a2 & E2 & F2).
+    set (g2 := ghost_drop g1 (gone_between n (fst (dispatch n cid m)))).
+    destruct (ghost_outs_hist (snd (dispatch n cid m)) g2) as (a1 & E1 & F1).
+    set (g4 := if cer_unexpected n cid m then ghost_unbind (ghost_outs g2 (snd (dispatch n cid m))) (m_hbh m) (m_e2e m)
+               else ghost_outs g2 (snd (dispatch n cid m))).
+    assert (E4 : snd g4 = snd (ghost_outs g2 (snd (dispatch n cid m)))) by (unfold g4; destruct (cer_unexpected n cid m); reflexivity).
+    destruct (IH (fst (dispatch n cid m)) g4) as (a2 & E2 & F2).
     exists (a1 ++ a2)%list. split.
-    + rewrite E2, E1, E0, List.app_assoc. reflexivity.
+    + rewrite E2, E4, E1. unfold g2. cbn [ghost_drop snd]. rewrite E0, List.app_assoc. reflexivity.
     + apply List.Forall_app. split; (eapply List.Forall_impl; [|eassumption]); intros p; apply from_outs_incl;
         intros y Hy; apply List.in_or_app; [left|right]; exact Hy.
 Qed.
@@ -1035,9 +1547,15 @@ Lemma ghost_step_hist n ds e g :
   exists added, snd (ghost_step n ds e g) = (snd g ++ added)%list
                 /\ List.Forall (from_outs (snd (step n ds e))) added.
 Proof.
-  destruct e; try apply ghost_outs_hist.
+  assert (Hnil : exists added, snd g = (snd g ++ added)%list /\ List.Forall (from_outs (snd (step n ds e))) added)
+    by (exists []; split; [symmetry; apply List.app_nil_r|constructor]).
+  destruct e; try (cbn [ghost_step ghost_drop snd]; apply ghost_outs_hist);
+    [|cbn [ghost_step]; destruct (fst (route_answer n m));
+      [cbn [ghost_drop snd]; apply ghost_outs_hist|destruct (waits n (o_hbh m, o_e2e m)); exact Hnil]].
   cbn [ghost_step]. destruct (get_conn n cid) as [c|] eqn:Hc.
-  - destruct (ghost_frames_hist cid ms (read_state n ds cid) g) as (ad & E & F).
+  - cbv zeta. cbn [ghost_drop snd].
+    destruct (ghost_frames_hist cid ms (read_state n ds cid) (ghost_drop g (gone_between n (read_state n ds cid))))
+      as (ad & E & F).
     exists ad. split; [exact E|]. rewrite (step_recv_eq n ds cid ms c Hc). cbn [snd].
     eapply List.Forall_impl; [|exact F]. intros p. apply from_outs_incl.
     intros y Hy. apply List.in_or_app. right. apply List.in_or_app. left. exact Hy.
@@ -1188,6 +1706,58 @@ Example C17_history_example_pair_reuse :
   /\ snd (step n2 [] (ERecv 0 [hx_req "p" 21 200 true])) = [ODeliver 0%nat (hx_req "p" 21 200 true)]
   /\ snd (step n2 [] (ERecv 1 [hx_req "q" 22 200 true])) = [OQueue 1%nat (hx_5012 22 200); OSend 1%nat (hx_5012 22 200)].
 Proof. vm_compute. repeat split. Qed.
+
+(* a connection closes while a request it delivered is still unanswered: "p" sends (30, 300), the application
+   has not answered when the peer closes connection 0; the node forgets the pair (per-host table and origin
+   table), and so does the ghost: the pending table loses the pair.  The application's late answer is not
+   routable and is attributed to nobody *)
+Definition hx_evs3a : list (dials * event) := (hx_evs ++ [([], ERecv 0 [hx_req "p" 30 300 false])])%list.
+Definition hx_evs3 : list (dials * event) := (hx_evs3a ++ [([], EPeerClose 0)])%list.
+Definition hx_evs3b : list (dials * event) := (hx_evs3 ++ [([], EAppAnswer 0 (hx_ans 30 300))])%list.
+Example C17_history_example_close :
+  pending hx_n0 hx_evs3a = [(30, 300, "p"%string)]
+  /\ n_origin_waiting (fst (run hx_n0 hx_evs3a)) = [(30, 300, "p"%string)]
+  /\ n_peer_waiting (fst (run hx_n0 hx_evs3a)) = [("p"%string, [(30, 300)])]
+  /\ List.nth 11 (List.map snd (trace hx_n0 hx_evs3)) [] = [OClose 0%nat R_GONE]
+  /\ pending hx_n0 hx_evs3 = []
+  /\ n_origin_waiting (fst (run hx_n0 hx_evs3)) = []
+  /\ n_peer_waiting (fst (run hx_n0 hx_evs3)) = []
+  /\ List.nth 12 (List.map snd (trace hx_n0 hx_evs3b)) [] = [ONotRoutable]
+  /\ answered hx_n0 hx_evs3b "p"%string = [1; 101; 102; 103]
+  /\ n_sent_answers (fst (run hx_n0 hx_evs3b)) = [("p"%string, [102; 103]); ("q"%string, [2])].
+Proof. vm_compute. repeat split. Qed.
+
+(* a CER repeated on a READY connection (connection 0 of "p"): the node binds its pair (40, 40) to "p", ignores the
+   request (no output) and forgets the pair again; the ghost binds (ghost_request) and unbinds: nothing stays pending *)
+Definition hx_evs4 : list (dials * event) := (hx_evs ++ [([], ERecv 0 [ce true "p" 40])])%list.
+Example C17_history_example_cer_ignored :
+  cer_unexpected (read_state hx_n [] 0) 0 (ce true "p" 40) = true
+  /\ fst (ghost_request (ghost_run hx_n0 ghost0 hx_evs) (ce true "p" 40)) = [(40, 40, "p"%string)]
+  /\ List.nth 10 (List.map snd (trace hx_n0 hx_evs4)) [ONotRoutable] = []
+  /\ pending hx_n0 hx_evs4 = []
+  /\ n_origin_waiting (fst (run hx_n0 hx_evs4)) = []
+  /\ answered hx_n0 hx_evs4 "p"%string = [1; 101; 102; 103].
+Proof. vm_compute. repeat split. Qed.
+
+(* an application answers after the peer's DPR: "p" sends (30, 300), then a DPR (answered: the DPA, end-to-end id
+   50, is attributed to "p"); connection 0 is DISCONNECTING when the application's answer to (30, 300) arrives: a host
+   was waiting for it but the answer is not routable; the node forgets the pair, and so does the ghost *)
+Definition hx_evs5a : list (dials * event) := (hx_evs3a ++ [([], ERecv 0 [dpr "p" 50])])%list.
+Definition hx_evs5 : list (dials * event) := (hx_evs5a ++ [([], EAppAnswer 0 (hx_ans 30 300))])%list.
+Example C17_history_example_answer_not_routable :
+  pending hx_n0 hx_evs5a = [(30, 300, "p"%string)]
+  /\ n_origin_waiting (fst (run hx_n0 hx_evs5a)) = [(30, 300, "p"%string)]
+  /\ n_peer_waiting (fst (run hx_n0 hx_evs5a)) = [("p"%string, [(30, 300)])]
+  /\ List.map (fun c => (c_id c, c_state c, c_host c)) (n_conns (fst (run hx_n0 hx_evs5a)))
+     = [(0%nat, SDisconnecting, "p"%string); (1%nat, SReady, "q"%string)]
+  /\ waits (fst (run hx_n0 hx_evs5a)) (30, 300) = true
+  /\ fst (route_answer (fst (run hx_n0 hx_evs5a)) (hx_ans 30 300)) = None
+  /\ List.nth 12 (List.map snd (trace hx_n0 hx_evs5)) [] = [ONotRoutable]
+  /\ pending hx_n0 hx_evs5 = []
+  /\ n_origin_waiting (fst (run hx_n0 hx_evs5)) = []
+  /\ answered hx_n0 hx_evs5 "p"%string = [1; 101; 102; 103; 50]
+  /\ n_sent_answers (fst (run hx_n0 hx_evs5)) = [("p"%string, [103; 50]); ("q"%string, [2])].
+Proof. vm_compute. repeat split. Qed.
 End HistoryExample.
 
 (* ====================================================================== *)
@@ -1205,3 +1775,6 @@ Print Assumptions HistoryExample.C17_history_example_steps.
 Print Assumptions HistoryExample.C17_history_example_theorem.
 Print Assumptions HistoryExample.C17_history_example_theorem_evicted.
 Print Assumptions HistoryExample.C17_history_example_pair_reuse.
+Print Assumptions HistoryExample.C17_history_example_close.
+Print Assumptions HistoryExample.C17_history_example_cer_ignored.
+Print Assumptions HistoryExample.C17_history_example_answer_not_routable.
